@@ -127,7 +127,10 @@ T2DFail(F, ev) ==
     Bind(PositionFail(F, ev), LAMBDA pf : IF pf # "" THEN pf
     ELSE IF ev.exc # "" THEN (IF 0 \in C /\ ev.exc = "ValueError" THEN "" ELSE "t2d.raised")
     ELSE IF C = {0} \/ ev.none = 1 THEN "t2d.outside_must_raise"
-    ELSE Bind(ResultFail(F, ev, C), LAMBDA rf : IF rf # "" THEN rf ELSE ShiftFail(ev))))
+    ELSE Bind(ResultFail(F, ev, C), LAMBDA rf : IF rf # "" THEN rf
+              ELSE Bind(ShiftFail(ev), LAMBDA sf : IF sf # "" THEN sf
+              \* the same whole-degree position handed over as Python ints and as floats: the same numbers, the same answer
+              ELSE IF ~ev.intsame THEN "t2d.int_arguments" ELSE ""))))
 
 \* the reads of the code against the cursor model (information only: another I/O strategy is not an error)
 CursorMatches(F, ev, C) ==
